@@ -256,12 +256,15 @@ fn gen_case(rng: &mut Rng, out: &mut Out, tier: &str) {
         if rng.chance(focus_pct) { known[0] } else { *rng.pick(known) }
     };
     for step in 0..len {
+        let mut created_now: Vec<(usize, u64)> = vec![];
         if rng.chance(45) {
             let mut reqs: Vec<String> = vec![];
             for _ in 0..rng.below(3) {
                 let ins = rng.below(nins as u64) as usize;
                 let cid = fresh(rng);
-                known.push((ins, cid));
+                // known only AFTER this step's event: the event of the step must not be an exchange report
+                // for an order whose request goes out in the very same tick (confirmed before requested)
+                created_now.push((ins, cid));
                 reqs.push(format!("o:{}:{ins}:{cid}:B:100:10", defs[ins].0));
             }
             if !known.is_empty() && rng.chance(40) {
@@ -316,6 +319,7 @@ fn gen_case(rng: &mut Rng, out: &mut Out, tier: &str) {
             _ => format!("ev price {i} {}", 100 + rng.below(5)),
         };
         out.line(line);
+        known.append(&mut created_now);
         if rng.chance(8) {
             out.line(if rng.chance(50) { "rep_dup" } else { "rep_gap" });
         }
